@@ -372,11 +372,52 @@ fn avk_orders() -> String {
     if bad == 0 { "agree over 6 orders".to_string() } else { format!("VIOLATED {} of 5 orders differ from the first", bad) }
 }
 
+/// quorum selection under repeated / re-submitted / corrupted copies (phi_f = 1: every index wins, so every index
+/// subset of an honest signature is a valid signature)
+fn clerk_battery() -> String {
+    let params = Parameters { m: 5, k: 5, phi_f: 1.0 };
+    let (signers, clerk) = setup(params, &[10, 20]);
+    let msg = b"verif-replay".to_vec();
+    let a = signers[0].create_single_signature(&msg).unwrap();
+    let b = signers[1].create_single_signature(&msg).unwrap();
+    let mut out = Vec::new();
+    let mut expect = |name: &str, sigs: &[SingleSignature], p: &Parameters, want_ok: bool| {
+        let (_, c) = setup(*p, &[10, 20]);
+        let r = aggregate_and_verify(&c, sigs, &msg, p);
+        let ok = r == "accepted";
+        out.push(format!("{}={}{}", name, if ok == want_ok { "" } else { "VIOLATED " }, r.chars().take(28).collect::<String>()));
+    };
+    let k4 = Parameters { k: 4, ..params };
+    expect("A", &[a.clone()], &params, true);
+    expect("A_A", &[a.clone(), a.clone()], &params, true);
+    expect("A1234_A0_A0", &[with_indexes(&a, &[1, 2, 3, 4]), with_indexes(&a, &[0]), with_indexes(&a, &[0])], &params, true);
+    expect("A23_A012_k4", &[with_indexes(&a, &[2, 3]), with_indexes(&a, &[0, 1, 2])], &k4, true);
+    expect("A_then_corrupted_copy", &[a.clone(), with_indexes(&a, &[7])], &params, true);
+    expect("corrupted_copy_then_A", &[with_indexes(&a, &[7]), a.clone()], &params, true);
+    expect("A0123_plus_corrupted_copy_is_not_a_quorum", &[with_indexes(&a, &[0, 1, 2, 3]), with_indexes(&a, &[7])], &params, false);
+    expect("A01_B1234_overlap", &[with_indexes(&a, &[0, 1]), with_indexes(&b, &[1, 2, 3, 4])], &params, true);
+    expect("A0_0_B1234", &[with_indexes(&a, &[0, 0]), with_indexes(&b, &[1, 2, 3, 4])], &params, true);
+    expect("B11_A01234", &[with_indexes(&b, &[1, 1]), a.clone()], &params, true);
+    let _ = clerk;
+    out.join(" ")
+}
+
 fn main() {
     let a: Vec<String> = std::env::args().skip(1).collect();
     let out = match a.first().map(|s| s.as_str()) {
         Some("index_at_m") => index_at_m(),
         Some("duplicate") => duplicate(),
+        Some("merkle_forge") => merkle_forge(&a[1]),
+        Some("sample_points") => {
+            let params = Parameters { m: 4, k: 2, phi_f: 1.0 };
+            let (signers, _clerk) = setup(params, &[10, 20]);
+            let sig = signers[0].create_single_signature(b"x").unwrap();
+            let v = serde_json::to_value(&sig).unwrap();
+            let hexs = |a: &serde_json::Value| a.as_array().unwrap().iter().map(|b| format!("{:02x}", b.as_u64().unwrap())).collect::<String>();
+            let vk = serde_json::to_value(signers[0].get_bls_verification_key()).unwrap();
+            format!("{} {}", hexs(&vk), hexs(&v["sigma"]))
+        }
+        Some("clerk_battery") => clerk_battery(),
         Some("avk_orders") => avk_orders(),
         Some("merkle_index_overflow") => merkle_index_overflow(),
         Some("merkle_empty_proof") => merkle_empty_proof(),
@@ -389,4 +430,83 @@ fn main() {
         _ => "unknown-query".to_string(),
     };
     println!("{}", out);
+}
+
+
+/// Replay of a solver counterexample of the Merkle soundness obligations through the public aggregate verifier.
+/// spec = {"n": tree size, "claims": [{"L": position} | {"F": j}], "indices": [..], "values": [expr]}
+/// expr = {"L": i} | {"F": j} | "P" (digests of a committed leaf / forged leaf / the padding byte) | {"h2": [expr, expr]} | {"J": t}
+/// A forged leaf F j is (verification key of the party at position j mod n, stake 1_000_000 + j): not committed, but the
+/// party's own signature stays valid under it, so everything but the membership check passes.
+fn merkle_forge(spec: &str) -> String {
+    use blake2::{Blake2b, Digest, digest::consts::U32};
+    type H = Blake2b<U32>;
+    let spec: serde_json::Value = serde_json::from_str(spec).unwrap();
+    let n = spec["n"].as_u64().unwrap() as usize;
+    let params = Parameters { m: 8, k: 1, phi_f: 1.0 };
+    let stakes: Vec<u64> = (0..n as u64).map(|i| 10 + i).collect();
+    let (signers, clerk) = setup(params, &stakes);
+    let msg = b"verif-replay".to_vec();
+    let avk = clerk.compute_aggregate_verification_key();
+    // tree position -> (entry json of the party's honest one-signature aggregate)
+    let mut by_pos: Vec<Option<serde_json::Value>> = vec![None; n];
+    let mut base = serde_json::Value::Null;
+    for s in signers.iter() {
+        let sig = with_indexes(&s.create_single_signature(&msg).unwrap(), &[0]);
+        let v = agg_json(&clerk, &[sig], &msg);
+        let pos = v["batch_proof"]["indices"][0].as_u64().unwrap() as usize;
+        by_pos[pos] = Some(v["signatures"][0].clone());
+        base = v;
+    }
+    let leaf_bytes = |entry: &serde_json::Value, stake: u64| -> Vec<u8> {
+        let mut b: Vec<u8> = entry[1][0].as_array().unwrap().iter().map(|x| x.as_u64().unwrap() as u8).collect();
+        b.extend_from_slice(&stake.to_be_bytes());
+        b
+    };
+    let entry_of = |c: &serde_json::Value, t: usize| -> (serde_json::Value, Vec<u8>) {
+        let (pos, stake) = if let Some(i) = c.get("L") {
+            let i = i.as_u64().unwrap() as usize;
+            (i, by_pos[i].as_ref().unwrap()[1][1].as_u64().unwrap())
+        } else {
+            let j = c["F"].as_u64().unwrap();
+            ((j as usize) % n, 1_000_000 + j)
+        };
+        let mut e = by_pos[pos].clone().unwrap();
+        e[0]["indexes"] = serde_json::json!([t as u64]);
+        e[1][1] = serde_json::json!(stake);
+        let lb = leaf_bytes(&e, stake);
+        (e, lb)
+    };
+    fn eval(e: &serde_json::Value, leaf: &dyn Fn(&serde_json::Value) -> Vec<u8>) -> Vec<u8> {
+        if e == "P" {
+            return H::digest([0u8]).to_vec();
+        }
+        if let Some(p) = e.get("h2") {
+            return H::new().chain_update(eval(&p[0], leaf)).chain_update(eval(&p[1], leaf)).finalize().to_vec();
+        }
+        if let Some(t) = e.get("J") {
+            return vec![0xA0u8.wrapping_add(t.as_u64().unwrap() as u8); 32];
+        }
+        H::digest(leaf(e)).to_vec()
+    }
+    let leaf_of = |e: &serde_json::Value| -> Vec<u8> { entry_of(e, 0).1 };
+    // control: the root recomputed with this file's hashing must be the aggregate key's root (else the replay itself is wrong)
+    let np2 = n.next_power_of_two();
+    let mut level: Vec<Vec<u8>> = (0..np2).map(|i| if i < n { H::digest(leaf_of(&serde_json::json!({"L": i}))).to_vec() } else { H::digest([0u8]).to_vec() }).collect();
+    while level.len() > 1 {
+        level = level.chunks(2).map(|p| H::new().chain_update(&p[0]).chain_update(&p[1]).finalize().to_vec()).collect();
+    }
+    let avk_json = serde_json::to_value(avk.to_concatenation_aggregate_verification_key()).unwrap();
+    let root_bytes: Vec<u8> = level[0].clone();
+    let control = avk_json.to_string().contains(&serde_json::to_string(&root_bytes).unwrap().trim_matches(|c| c == '[' || c == ']').to_string());
+    let mut j = base.clone();
+    let claims = spec["claims"].as_array().unwrap();
+    j["signatures"] = serde_json::Value::Array(claims.iter().enumerate().map(|(t, c)| entry_of(c, t).0).collect());
+    j["batch_proof"]["indices"] = spec["indices"].clone();
+    j["batch_proof"]["values"] = serde_json::Value::Array(spec["values"].as_array().unwrap().iter().map(|e| serde_json::json!(eval(e, &leaf_of))).collect());
+    let r = match serde_json::from_value::<mithril_stm::AggregateSignature<D>>(j) {
+        Ok(f) => catch(move || verdict(f.verify(&msg, &avk, &params, None, None))),
+        Err(e) => format!("rejected (decode: {})", e),
+    };
+    format!("control={} forged={}", if control { "ok" } else { "MISMATCH" }, r.chars().take(120).collect::<String>())
 }
